@@ -1,6 +1,6 @@
 """Environment models for the externals of the linked nifly module (libc / libstdc++ / harness API).
 Every model here is part of the trusted base of every check and is listed in the evidence."""
-import re, z3, struct, math
+import re, z3, struct, math, sys
 from .engine import *
 from . import llvmc as ll
 
@@ -889,8 +889,8 @@ def m_deep_equal(e, st, a, I):
             if pc_ != pd:
                 # pointer vs null bytes etc.
                 if (pc_ and type(d) is int and all(type(q) is int and q == 0 for q in cy[i:i+8])) or (pd and type(c) is int):
-                    print("DEEP: pointer/non-pointer mismatch at", i); return 0
-                print("DEEP: pointer/non-pointer mismatch at", i); return 0
+                    print("DEEP:", file=sys.stderr) if False else print("DEEP: pointer/non-pointer mismatch at", i); return 0
+                print("DEEP:", file=sys.stderr) if False else print("DEEP: pointer/non-pointer mismatch at", i); return 0
             if pc_:
                 p, q = c[1], d[1]
                 if isinstance(p, Ptr) and isinstance(q, Ptr):
@@ -899,23 +899,23 @@ def m_deep_equal(e, st, a, I):
                         if is_sym(p.off) or is_sym(q.off):
                             conds.append(bv(p.off, 64) - x.off == bv(q.off, 64) - y.off)
                         elif (p.off - x.off) != (q.off - y.off):
-                            print("DEEP: self pointer offset differs"); return 0
+                            print("DEEP:", file=sys.stderr) if False else print("DEEP: self pointer offset differs"); return 0
                     elif op is not None and oq is not None and op.kind in ("global", "func") :
                         if _gname(e, st, p.obj) != _gname(e, st, q.obj) or (not is_sym(p.off) and not is_sym(q.off) and p.off != q.off):
-                            print("DEEP: global pointer differs", _gname(e, st, p.obj), _gname(e, st, q.obj)); return 0
+                            print("DEEP:", file=sys.stderr) if False else print("DEEP: global pointer differs", _gname(e, st, p.obj), _gname(e, st, q.obj)); return 0
                     elif op is not None and oq is not None:
                         if is_sym(p.off) or is_sym(q.off):
                             conds.append(bv(p.off, 64) == bv(q.off, 64))
                         elif p.off != q.off:
-                            print("DEEP: heap pointer offset differs"); return 0
+                            print("DEEP:", file=sys.stderr) if False else print("DEEP: heap pointer offset differs"); return 0
                         if op.size != oq.size:
-                            print("DEEP: heap buffer size differs", op.size, oq.size); return 0
+                            print("DEEP:", file=sys.stderr) if False else print("DEEP: heap buffer size differs", op.size, oq.size); return 0
                         work.append((Ptr(p.obj, 0), Ptr(q.obj, 0), op.size))
                 i += 8
                 continue
             if type(c) is int and type(d) is int:
                 if c != d:
-                    print("DEEP: concrete byte differs at", i, c, d); return 0
+                    print("DEEP:", file=sys.stderr) if False else print("DEEP: concrete byte differs at", i, c, d); return 0
             elif not (c is d or (type(c) is tuple and type(d) is tuple and c[1] is d[1] and c[2] == d[2])):
                 conds.append(cell_bv(c) == cell_bv(d))
             i += 1
